@@ -537,6 +537,14 @@ func FileSeek(file *os.File, offset int64, whence int) (int64, error) {
 	return n, err
 }
 
+// AnySync is the rewritten form of x.Sync() where x is an interface value: a *os.File goes through FileSync.
+func AnySync(x interface{ Sync() error }) error {
+	if f, ok := x.(*os.File); ok {
+		return FileSync(f)
+	}
+	return x.Sync()
+}
+
 func FileSync(file *os.File) error {
 	f := cur.Load()
 	if f == nil || file == nil {
